@@ -645,6 +645,9 @@ fn map_size(len: usize, is_array_element: &IsArrayElement) -> Result<usize, usiz
 #[derive(Debug)]
 pub struct TupleStructSerializer<'a> {
     field_role: FieldRole,
+    // The descriptor precedes the list (or map) of fields: it is not part of the
+    // body whose length decides between the 0-, 8- and 32-bit encodings
+    descriptor_size: usize,
     cumulated_size: usize,
     se: &'a mut SizeSerializer,
 }
@@ -652,6 +655,7 @@ pub struct TupleStructSerializer<'a> {
 impl<'a> TupleStructSerializer<'a> {
     fn descriptor(se: &'a mut SizeSerializer) -> Self {
         Self {
+            descriptor_size: 0,
             cumulated_size: 0,
             field_role: FieldRole::Descriptor,
             se,
@@ -660,6 +664,7 @@ impl<'a> TupleStructSerializer<'a> {
 
     fn fields(se: &'a mut SizeSerializer) -> Self {
         Self {
+            descriptor_size: 0,
             cumulated_size: 0,
             field_role: FieldRole::Fields,
             se,
@@ -679,7 +684,7 @@ impl ser::SerializeTupleStruct for TupleStructSerializer<'_> {
             FieldRole::Descriptor => {
                 self.field_role = FieldRole::Fields;
                 let mut serializer = SizeSerializer::new();
-                self.cumulated_size += value.serialize(&mut serializer)?;
+                self.descriptor_size += value.serialize(&mut serializer)?;
                 Ok(())
             }
             FieldRole::Fields => match self.se.struct_encoding() {
@@ -708,17 +713,20 @@ impl ser::SerializeTupleStruct for TupleStructSerializer<'_> {
     }
 
     fn end(self) -> Result<usize, Error> {
+        let descriptor_size = self.descriptor_size;
         match self.se.struct_encoding() {
             StructEncoding::None => list_size(self.cumulated_size, &self.se.is_array_element)
+                .map(|size| descriptor_size + size)
                 .map_err(|_| Error::too_long()),
             StructEncoding::DescribedList => {
                 let _ = self.se.struct_encoding.pop();
                 list_size(self.cumulated_size, &self.se.is_array_element)
+                    .map(|size| descriptor_size + size)
                     .map_err(|_| Error::too_long())
             }
             StructEncoding::DescribedBasic => {
                 let _ = self.se.struct_encoding.pop();
-                Ok(self.cumulated_size)
+                Ok(descriptor_size + self.cumulated_size)
             }
             StructEncoding::DescribedMap => {
                 unreachable!("TupleStructSerializer is NOT used for DescribedMap")
@@ -730,6 +738,8 @@ impl ser::SerializeTupleStruct for TupleStructSerializer<'_> {
 /// SeqSerializer that calculates the size of serialized data without actually allocating `Vec<u8>`
 #[derive(Debug)]
 pub struct StructSerializer<'a> {
+    // See `TupleStructSerializer`
+    descriptor_size: usize,
     cumulated_size: usize,
     se: &'a mut SizeSerializer,
 }
@@ -737,6 +747,7 @@ pub struct StructSerializer<'a> {
 impl<'a> StructSerializer<'a> {
     fn new(se: &'a mut SizeSerializer) -> Self {
         Self {
+            descriptor_size: 0,
             cumulated_size: 0,
             se,
         }
@@ -754,7 +765,7 @@ impl ser::SerializeStruct for StructSerializer<'_> {
         use ser::Serialize;
 
         if key == DESCRIPTOR {
-            self.cumulated_size += value.serialize(&mut *self.se)?;
+            self.descriptor_size += value.serialize(&mut *self.se)?;
             Ok(())
         } else {
             match self.se.struct_encoding() {
@@ -785,22 +796,26 @@ impl ser::SerializeStruct for StructSerializer<'_> {
     }
 
     fn end(self) -> Result<usize, Error> {
+        let descriptor_size = self.descriptor_size;
         match self.se.struct_encoding() {
             StructEncoding::None => list_size(self.cumulated_size, &self.se.is_array_element)
+                .map(|size| descriptor_size + size)
                 .map_err(|_| Error::too_long()),
             StructEncoding::DescribedList => {
                 let _ = self.se.struct_encoding.pop();
                 list_size(self.cumulated_size, &self.se.is_array_element)
+                    .map(|size| descriptor_size + size)
                     .map_err(|_| Error::too_long())
             }
             StructEncoding::DescribedMap => {
                 let _ = self.se.struct_encoding.pop();
                 map_size(self.cumulated_size, &self.se.is_array_element)
+                    .map(|size| descriptor_size + size)
                     .map_err(|_| Error::too_long())
             }
             StructEncoding::DescribedBasic => {
                 let _ = self.se.struct_encoding.pop();
-                Ok(self.cumulated_size)
+                Ok(descriptor_size + self.cumulated_size)
             }
         }
     }
